@@ -150,11 +150,30 @@ pub struct App {
     pub prog: Arc<Program>,
     pub probe: Option<Probe>,
     pub probe_result: Arc<Mutex<ProbeResult>>,
+    /// delays (ns, from the end time) of events the application schedules in its at_sim_end
+    /// (ids 900, 901, ..); they can never run and must come back as remaining events
+    pub end_adds: Vec<u64>,
+}
+
+thread_local! {
+    /// what `build_with` puts into `App::end_adds`
+    pub static END_ADDS: std::cell::RefCell<Vec<u64>> = const { std::cell::RefCell::new(Vec::new()) };
+}
+
+pub struct AppLifecycle;
+impl EventLifecycle<App> for AppLifecycle {
+    fn at_sim_end(rt: &mut Runtime<App>) -> Result<(), RuntimeError> {
+        let adds = rt.app.end_adds.clone();
+        for (i, d) in adds.iter().enumerate() {
+            rt.add_event_in(Ev(900 + i as u32), Duration::from_nanos(*d));
+        }
+        Ok(())
+    }
 }
 
 impl Application for App {
     type EventSet = Ev;
-    type Lifecycle = ();
+    type Lifecycle = AppLifecycle;
 }
 
 pub const PROBE_ID: u32 = 999;
@@ -215,7 +234,7 @@ pub fn build_with(
     let pr: Arc<Mutex<ProbeResult>> = Default::default();
     let b = Builder::seeded(1).quiet().cqueue_options(cfg.n, Duration::from_nanos(cfg.t)).start_time(ns(cfg.start));
     let b = f(b);
-    let mut rt = b.build(App { log: log.clone(), prog: prog.clone(), probe, probe_result: pr.clone() });
+    let mut rt = b.build(App { log: log.clone(), prog: prog.clone(), probe, probe_result: pr.clone(), end_adds: END_ADDS.with(|e| e.borrow().clone()) });
     for &(id, d) in &prog.roots {
         rt.add_event(Ev(id), ns(cfg.start + d));
     }
